@@ -9,6 +9,7 @@ import (
 	"sync"
 
 	"github.com/risor-io/risor/compiler"
+	"github.com/risor-io/risor/internal/verifhook"
 	"github.com/risor-io/risor/object"
 	"github.com/risor-io/risor/parser"
 )
@@ -89,6 +90,10 @@ func (i *LocalImporter) Import(ctx context.Context, name string) (*object.Module
 func readFileWithExtensions(dir, name string, extensions []string) (string, string, bool) {
 	for _, ext := range extensions {
 		fullPath := filepath.Join(dir, name+ext)
+		verifhook.Note("importer.read", fullPath)
+		if verifhook.Fault("importer.read", fullPath) != nil {
+			continue
+		}
 		bytes, err := os.ReadFile(fullPath)
 		if err == nil {
 			return string(bytes), fullPath, true
